@@ -37,7 +37,38 @@ pub fn scenarios() -> Vec<Scenario> {
             weight: 2,
             rule: "case = valid packet; every applicable catalogue malformation at every applicable site is judged by the reference grammar and by the poll decoder; non-trivial when >= 3 malformations applied; distinct by case hash",
         },
+        Scenario {
+            property: "C04",
+            name: "c04-tiny",
+            gen: gen_tiny,
+            run: run_tiny,
+            quick_runs: 1_000_000,
+            weight: 1,
+            rule: "case = tiny complete frame enumerated by run index: every type x remaining length 0..=5 x body bytes over {00,01,02,03,10,80,FF}; non-trivial when the body is non-empty; distinct by case hash",
+        },
     ]
+}
+
+pub fn gen_tiny(rng: &mut Rng, _tier: Tier, idx: u64) -> Case {
+    let fam = match idx % 3 {
+        0 => Fam::V311,
+        1 => Fam::V5,
+        _ => gen::pick_fam(rng),
+    };
+    let mut c = Case::new("C04", "c04-tiny", fam, Front::P);
+    c.stream = Bs(small_frame(fam, idx / 3));
+    c
+}
+
+pub fn run_tiny(c: &Case, trace: bool) -> RunOut {
+    dispatch!(c.fam, run_tiny_g(c, trace))
+}
+
+fn run_tiny_g<C: Codec>(c: &Case, trace: bool) -> RunOut {
+    let mut out = RunOut::default();
+    out.nontrivial = c.stream.len() > 2;
+    judge::<C>(c.fam, &c.stream.0, "", trace, &mut out);
+    out
 }
 
 pub fn gen(rng: &mut Rng, tier: Tier, idx: u64) -> Case {
@@ -70,13 +101,26 @@ pub fn gen(rng: &mut Rng, tier: Tier, idx: u64) -> Case {
     if rng.chance(1, 2) {
         let n = rng.urange(1, 3);
         c.mutations = gen_mutations(rng, enc.bytes.len(), &span_bounds(&enc.spans), n);
+        c.n = vec![i64::from(rng.chance(2, 3))];
     }
     c
 }
 
+/// n[0] == 1: after the corruption the fixed header is rewritten so that it declares exactly
+/// the bytes that follow (keeps damaged bodies inside the property's domain of complete frames).
 pub fn build_frame(c: &Case) -> Vec<u8> {
     let mut s = refcodec::ref_encode(&c.packets[0], c.fam, &c.style).bytes;
     apply_mutations(&mut s, &c.mutations);
+    if c.n.first().copied().unwrap_or(0) == 1 && !s.is_empty() {
+        let first = s[0];
+        let body: Vec<u8> = match spec::read_varint(&s[1..]) {
+            Ok((_, n, _)) => s[1 + n..].to_vec(),
+            Err(_) => s[1..].to_vec(),
+        };
+        if body.len() as u64 <= u64::from(spec::VARINT_MAX) {
+            s = refcodec::frame(first, &body, 0).0;
+        }
+    }
     s
 }
 
